@@ -223,7 +223,7 @@ def convertLoop : List Arg → Except Err (List Stored)
       else .error .typeError
 
 /-- `_tagchilds_to_tagnodes(x)` -/
-def tagchildsToTagnodes (x : Arg) : Except Err (List Stored) :=
+def chTagchildsToTagnodes (x : Arg) : Except Err (List Stored) :=
   if x.isStr then .ok [Stored.ofArg x]            -- `if isinstance(x, str): return [x]`
   else match x.iter with
     | .error e => .error e                         -- flatten's `for item in x` on a non-iterable
@@ -271,11 +271,11 @@ structure StepOut where
 
 /-- `TagList(*args)` -/
 def TL.init (args : List Arg) : Except Err TL :=
-  tagchildsToTagnodes (.tuple (Args.ofList args))
+  chTagchildsToTagnodes (.tuple (Args.ofList args))
 
 /-- `self.extend(other)`: the nodes are computed first, then `self.data.extend(...)` -/
 def TL.extend (s : TL) (other : Arg) : StepOut :=
-  match tagchildsToTagnodes other with
+  match chTagchildsToTagnodes other with
   | .error e => ⟨.error e, s⟩
   | .ok ns => ⟨.ok (), s ++ ns⟩
 
@@ -286,7 +286,7 @@ def TL.append (s : TL) : List Arg → StepOut
 
 /-- `self.insert(i, item)`: `self[i:i] = _tagchilds_to_tagnodes([item])` -/
 def TL.insert (s : TL) (i : Int) (item : Arg) : StepOut :=
-  match tagchildsToTagnodes (.list (.cons item .nil)) with
+  match chTagchildsToTagnodes (.list (.cons item .nil)) with
   | .error e => ⟨.error e, s⟩
   | .ok ns => let k := clampIdx s.length i; ⟨.ok (), s.take k ++ ns ++ s.drop k⟩
 
